@@ -231,12 +231,26 @@ def _run(cx, out):
             rbs = [x for x in items(t) if x[0] == 'rb']
             want = set(corpusgen.expected_tags(d))
             if want:
-                if len(alts) != 1 or not rbs:
+                its_ = items(t)
+                rb_i = [ix for ix, x in enumerate(its_) if x[0] == 'rb']
+                if len(rb_i) < 1:
                     good, msg = False, 'decoder does not dispatch on one index byte'
                 else:
-                    acc, wild, bad = c03.accepted_tags(alts[0])
-                    if acc != want or bad or (not wild and len(acc) < 256):
-                        good, msg = False, 'decoder accepts index bytes %s (%s), declared %s' % (sorted(acc), '; '.join(bad) or ('catch-all rejects' if wild else 'no rejecting catch-all'), sorted(want))
+                    # probed, not matched: for each of the 256 values of the index byte, does the rest of the decoder reject
+                    # (every path ends in an error) or go on?  A `match` with guards, constant patterns or an if-chain are
+                    # the same dispatch
+                    uid = its_[rb_i[0]][1]
+                    rest = cat(*its_[rb_i[0] + 1:])
+                    acc, amb = set(), []
+                    for b in range(256):
+                        r = outcomes(rest, lambda val, b=b: b if strip(val) == ('byte', uid) else None)
+                        if 'PANIC' in r or ('OK' in r and 'ERR' in r):
+                            amb.append(b)
+                        if 'OK' in r:
+                            acc.add(b)
+                    if acc != want or amb:
+                        good, msg = False, 'decoder accepts index bytes %s%s, declared %s' % (
+                            sorted(acc)[:12], ' (undecided or panicking for %s)' % amb[:6] if amb else '', sorted(want))
             else:
                 # no encodable variant: every index must be rejected
                 errs = [p for p in paths(t) if not (p and p[-1][0] in ('ERR', '?ERR'))]
